@@ -449,15 +449,19 @@ def collect_inputs_for_node(
     Returns:
         Dict mapping input names to their values
     """
+    from hypergraph.nodes.graph_node import GraphNode
+
     inputs = {}
-    # A mapping GraphNode runs its inner graph once per item: an inner signature default that is not
-    # mapped over is left for each item's run to resolve (and copy) itself, instead of broadcasting
-    # one copy that the items would share. A value bound on the inner graph is likewise resolved
-    # inside it, so it never goes through the clone path of the map.
+    # A GraphNode's inner signature default is left for the inner run to resolve (and copy) itself:
+    # resolved here it would reach the inner graph as ONE supplied object, shared by all inner nodes
+    # that take it and - when a mapping node sits anywhere below - by all items of the map, instead
+    # of one copy per resolution. A value bound on the inner graph is likewise resolved inside it,
+    # so it never goes through the clone path of a map.
     map_config = getattr(node, "map_config", None)
-    mapped = set(map_config[0]) if map_config else None
+    mapped = set(map_config[0]) if map_config else set()
+    is_graph_node = isinstance(node, GraphNode)
     for param in node.inputs:
-        if mapped is not None and param not in mapped:
+        if is_graph_node and param not in mapped:
             source = get_value_source(param, node, graph, state, provided_values)[0]
             if source == ValueSource.DEFAULT or (source == ValueSource.BOUND and param not in graph._bound):
                 continue
